@@ -254,12 +254,12 @@ def api_spelling_property(rng):
         for k, v, tag in ops:
             if k == 's':
                 geo.scale(conv(v) if float(v) == int(v) else v, tag)
-        m = Mininec(10.0, [g for g in geo.geo])
+        m = Mininec(10.0, geo)
         return m
     try:
         ma = build(float)
-    except Exception as e:
-        return None, (spec, ops)            # not a valid structure (e.g. coinciding wires)
+    except ValueError as e:
+        return None, ('rejected', spec, ops)            # not a valid structure (e.g. coinciding wires)
     try:
         mb = build(int)
     except Exception as e:
@@ -485,7 +485,7 @@ def run(ck):
         sseed = rng.randrange(10 ** 9)
         bad, what = api_spelling_property(_random.Random(sseed))
         ck.case(('api-spelling', i), True)
-        ck.count('api_spelling_cases')
+        ck.count('api_spelling_rejected' if (what and what[0] == 'rejected') else 'api_spelling_cases')
         if bad:
             viol.append(dict(kind='api-spelling', spelling_seed=sseed, observed=bad))
     ck.stats['disagreements'] = len(dis)
